@@ -42,11 +42,17 @@ svars == <<cvars, hdr, ps, lock, redo, acked, nkill, nerr, down, seen, out>>
 Idle == [pc |-> "idle", id |-> 0, par |-> 0, w |-> 0, root |-> 0, st |-> "-", ht |-> 0, cum |-> 0,
          stale |-> {}, demote |-> {}, nw |-> 0]
 
+\* The very first start is itself a sequence of writes: database.Init migrates the schema and then inserts the genesis
+\* header, in a transaction of its own.  A kill between the two leaves a migrated database with an EMPTY headers table:
+\* the second initial state (the kill counts against MaxKills); the restart that follows has to write the genesis header.
 SInit ==
-  /\ Init
+  /\ \/ Init /\ nkill = 0 /\ down = FALSE
+     \/ /\ MaxKills > 0
+        /\ rows = [i \in {} |-> GenesisRow] /\ decl = (0 :> -1) /\ forbs = {} /\ next = 1 /\ result = "init" /\ devused = ""
+        /\ nkill = 1 /\ down = TRUE
   /\ hdr = <<>>
   /\ ps = [p \in Procs |-> Idle]
-  /\ lock = 0 /\ redo = <<>> /\ acked = {} /\ nkill = 0 /\ nerr = 0 /\ down = FALSE
+  /\ lock = 0 /\ redo = <<>> /\ acked = {} /\ nerr = 0
   /\ seen = [r \in Readers |-> -1]
   /\ out = [p |-> 0, id |-> 0, res |-> "init", fault |-> "none"]
 
@@ -185,12 +191,14 @@ WriteErr(p) ==
              res |-> IF ps[p].pc = "insert" THEN "error:HeaderSaveFail" ELSE "error:ChainUpdateFail"]
   /\ UNCHANGED <<cvars, hdr, redo, acked, nkill, seen>>
 
-\* database.Init on the same file; then the peers deliver everything again, in order
+\* database.Init on the same file (every start writes the genesis header when it is not there; nothing else is touched);
+\* then the peers deliver everything again, in order
 RestartS ==
   /\ down /\ down' = FALSE
+  /\ rows' = IF 0 \in DOMAIN rows THEN rows ELSE (0 :> GenesisRow) @@ rows
   /\ redo' = SelectSeq(Submitted, LAMBDA k : k \notin forbs)
   /\ out' = [p |-> 0, id |-> 0, res |-> "restart", fault |-> "none"]
-  /\ UNCHANGED <<cvars, hdr, ps, lock, acked, nkill, nerr, seen>>
+  /\ UNCHANGED <<decl, forbs, next, result, devused, hdr, ps, lock, acked, nkill, nerr, seen>>
 
 ReadTip(r) ==
   /\ ~down
@@ -200,15 +208,19 @@ ReadTip(r) ==
 -----------------------------------------------------------------------------
 (* Properties *)
 LSet      == LongestOf(rows)
+\* (the table is empty only between a kill of the first start and the restart)
+EmptyOnlyWhileDown == DOMAIN rows = {} => down
 LValid    ==   \* the longest-chain labels form one parent-linked chain from genesis (C05, C15)
-  /\ \A i, j \in LSet : rows[i].height = rows[j].height => i = j
-  /\ {rows[i].height : i \in LSet} = 0 .. MaxLHeight
-  /\ \A i \in LSet : i = 0 \/ rows[i].parent \in LSet
+  \/ DOMAIN rows = {}
+  \/ /\ \A i, j \in LSet : rows[i].height = rows[j].height => i = j
+     /\ {rows[i].height : i \in LSet} = 0 .. MaxLHeight
+     /\ \A i \in LSet : i = 0 \/ rows[i].parent \in LSet
 NeverTwoLongestAtOneHeight == \A i, j \in LSet : rows[i].height = rows[j].height => i = j
 ReaderSeesValidTip == \A r \in Readers : seen[r] = -1 \/ seen[r] \in DOMAIN rows
 AckedNeverLost == acked \subseteq DOMAIN rows
 ImmutableS == [][\A i \in DOMAIN rows : i \in DOMAIN rows' /\ SameExceptSt(rows[i], rows'[i])]_svars
-RestartChangesNothing == [][out'.res = "restart" => rows' = rows]_svars
+RestartChangesNothing == [][out'.res = "restart" => /\ \A i \in DOMAIN rows : i \in DOMAIN rows' /\ rows'[i] = rows[i]
+                                                     /\ DOMAIN rows' \subseteq DOMAIN rows \cup {0}]_svars
 
 \* the ideal outcome: Chain.AddRow folded over the submitted headers in submission order
 RECURSIVE IdealUpTo(_)
